@@ -540,7 +540,15 @@ std::optional<Node> parse_with(const P& p, const Job& j, std::string& stream_tex
         L.base = v0.data(); L.base_len = j.bytes.size();
         if (j.stream == 1)
         {
-            if (j.verbose || !j.ws || !j.nl) { utils::no_stream ns; return p.parse(o, buf, ns); }
+            if (j.verbose || !j.ws || !j.nl)
+            {
+                utils::no_stream ns;
+                if (j.ctx == 1) { Ctx c; tl_ctx_addr = &c; auto r = p.context_parse(c, o, buf, ns); L.ctxmut = c.mut; return r; }
+                if (j.ctx == 2) { const Ctx c; tl_ctx_addr = &c; auto r = p.context_parse(c, o, buf, ns); L.ctxmut = c.mut; return r; }
+                return p.parse(o, buf, ns);
+            }
+            if (j.ctx == 1) { Ctx c; tl_ctx_addr = &c; auto r = p.context_parse(c, buf); L.ctxmut = c.mut; return r; }      // context_parse(ctx, buffer)
+            if (j.ctx == 2) { const Ctx c; tl_ctx_addr = &c; auto r = p.context_parse(c, buf); L.ctxmut = c.mut; return r; }
             return p.parse(buf);
         }
         if (j.stream == 2)
@@ -560,12 +568,15 @@ std::optional<Node> parse_with(const P& p, const Job& j, std::string& stream_tex
             return r;
         }
         capture_stream cs;
-        if (j.ctx == 0) return p.parse(o, buf, cs);
-        if (j.ctx == 1) { Ctx c; tl_ctx_addr = &c; auto r = p.context_parse(c, o, buf, cs); L.ctxmut = c.mut; return r; }
-        if (j.ctx == 2) { const Ctx c; tl_ctx_addr = &c; auto r = p.context_parse(c, o, buf, cs); L.ctxmut = c.mut; return r; }
-        if (j.ctx == 3) { Ctx c; tl_ctx_addr = &c; auto r = p.context_parse(std::move(c), o, buf, cs); L.ctxmut = c.mut; return r; }
-        if (j.ctx == 4) { CtxMO c; tl_ctx_addr = &c; auto r = p.context_parse(c, o, buf, cs); L.ctxmut = c.mut; return r; }
-        { CtxMO c; tl_ctx_addr = &c; auto r = p.context_parse(std::move(c), o, buf, cs); L.ctxmut = c.mut; return r; }
+        // with default options the SHORT overloads are called (parse(buffer, stream), context_parse(ctx, buffer, stream)):
+        // they forward to the long ones, and that forwarding is part of what is validated
+        const bool dflt_opts = !j.verbose && j.ws && j.nl;
+        if (j.ctx == 0) return dflt_opts ? p.parse(buf, cs) : p.parse(o, buf, cs);
+        if (j.ctx == 1) { Ctx c; tl_ctx_addr = &c; auto r = dflt_opts ? p.context_parse(c, buf, cs) : p.context_parse(c, o, buf, cs); L.ctxmut = c.mut; return r; }
+        if (j.ctx == 2) { const Ctx c; tl_ctx_addr = &c; auto r = dflt_opts ? p.context_parse(c, buf, cs) : p.context_parse(c, o, buf, cs); L.ctxmut = c.mut; return r; }
+        if (j.ctx == 3) { Ctx c; tl_ctx_addr = &c; auto r = dflt_opts ? p.context_parse(std::move(c), buf, cs) : p.context_parse(std::move(c), o, buf, cs); L.ctxmut = c.mut; return r; }
+        if (j.ctx == 4) { CtxMO c; tl_ctx_addr = &c; auto r = dflt_opts ? p.context_parse(c, buf, cs) : p.context_parse(c, o, buf, cs); L.ctxmut = c.mut; return r; }
+        { CtxMO c; tl_ctx_addr = &c; auto r = dflt_opts ? p.context_parse(std::move(c), buf, cs) : p.context_parse(std::move(c), o, buf, cs); L.ctxmut = c.mut; return r; }
     };
     if (j.buf == 1) { buffers::string_buffer b{std::string(j.bytes)}; return go(b); }
     if (j.buf == 3) { checked_buffer b(j.bytes, 0); return go(b); }
